@@ -36,7 +36,8 @@ def _int(x):
         return int(x)
     xi = int(x)
     if xi != x:
-        raise ValueError("non-integer cost %r" % (x,))
+        # only in the oracle-only float stream (case["float"]): such cases are never printed for Coq
+        return float(x)
     return xi
 
 
@@ -337,10 +338,31 @@ def var_cost(case, i, val):
 
 
 def global_cost(case, asg, with_var_costs=True):
-    tot = sum(cons_cost(case, k, asg) for k in range(len(case["cons"])))
+    """exact: integers, or for the float stream the exact rational value of every float cost
+    (fractions.Fraction(float)), so the oracle's sums have no rounding and no summation order"""
+    from fractions import Fraction
+    conv = Fraction if case.get("float") else (lambda x: x)
+    tot = sum(conv(cons_cost(case, k, asg)) for k in range(len(case["cons"])))
     if with_var_costs:
-        tot += sum(var_cost(case, i, asg[i]) for i in range(len(case["vars"])))
+        tot += sum(conv(var_cost(case, i, asg[i])) for i in range(len(case["vars"])))
     return tot
+
+
+def cost_tol(case):
+    """0 for integer costs.  Float stream: 1e-9 * (sum over constraints and variables of the largest
+    |cost| entry, at least 1).  The implementation sums floats in an order of its own, so a 'gain' can
+    differ from the exact one by rounding (~1e-16 * scale) and the UNCHANGED code may move between two
+    values whose exact costs differ by such an amount; the property is demanded up to this slack only."""
+    from fractions import Fraction
+    if not case.get("float"):
+        return 0
+    scale = sum(max([abs(x) for x in c["table"]] or [0]) for c in case["cons"])
+    scale += sum(max([abs(x) for x in (v.get("costs") or [0])]) for v in case["vars"])
+    return Fraction(1, 10 ** 9) * max(1, Fraction(scale))
+
+
+def show_cost(x):
+    return x if isinstance(x, int) else float(x)
 
 
 def neighbours(case, i):
@@ -460,22 +482,25 @@ def better(mode, a, b):
 
 def check_monotone(case, obs):
     bs = boundaries(case, obs)
+    tol = cost_tol(case)
     for b in range(len(bs) - 1):
         c0, c1 = global_cost(case, bs[b]), global_cost(case, bs[b + 1])
-        if better(case["mode"], c0, c1):
+        if better(case["mode"], c0, c1) and abs(c0 - c1) > tol:
             movers = [i for i in bs[b] if bs[b][i] != bs[b + 1][i]]
-            return dict(kind="worse", cycle=b + 1, before=c0, after=c1, movers=movers)
+            return dict(kind="worse", cycle=b + 1, before=show_cost(c0), after=show_cost(c1), movers=movers)
         movers = [i for i in bs[b] if bs[b][i] != bs[b + 1][i]]
         partner = {e[1]: e[5] for e in obs["events"] if e[0] == "val" and len(e) > 5 and e[4] == b + 1}
         for x in movers:
             for y in movers:
                 if x < y and y in neighbours(case, x) and not (partner.get(x) == y and partner.get(y) == x):
-                    return dict(kind="adjacent", cycle=b + 1, movers=movers, pair=[x, y], before=c0, after=c1)
+                    return dict(kind="adjacent", cycle=b + 1, movers=movers, pair=[x, y],
+                                before=show_cost(c0), after=show_cost(c1))
     return None
 
 
 def check_1opt(case, obs):
     bs = boundaries(case, obs)
+    tol = cost_tol(case)
     for b in range(len(bs) - 1):
         if bs[b] != bs[b + 1]:
             continue
@@ -485,8 +510,9 @@ def check_1opt(case, obs):
                 a2 = dict(bs[b])
                 a2[i] = v
                 c1 = global_cost(case, a2)
-                if better(case["mode"], c1, c0):
-                    return dict(kind="not1opt", cycle=b + 1, var=i, value=v, before=c0, after=c1)
+                if better(case["mode"], c1, c0) and abs(c0 - c1) > tol:
+                    return dict(kind="not1opt", cycle=b + 1, var=i, value=v, before=show_cost(c0),
+                                after=show_cost(c1))
     return None
 
 
@@ -542,12 +568,30 @@ def coq_mgm_rcase(c, o):
     return "M_Mgm.mkRCase %s %s %s %s" % (coq_dcop(c), asg(bs[0]), q.lst(orcs), q.lst([asg(a) for a in bs[1:]]))
 
 
-def gen_cycle_cases(rng, n, algos):
-    """cases for the cost properties: more cycles, complete runs mostly"""
+def floatify(rng, vars_, cons):
+    """integer instance -> decimal / non-dyadic float costs: every cost k becomes the float nearest to
+    k/q (q = 10 mostly: multiples of 0.1, own costs like 0.1/0.2; also 3 and 7), so that decimal-equal
+    gains get different float representations (near-ties at rounding distance)"""
+    q = rng.choice([10, 10, 10, 3, 7])
+    for v in vars_:
+        if v.get("costs") is not None:
+            v["costs"] = [float(x) / q for x in v["costs"]]
+    for c in cons:
+        c["table"] = [float(x) / q for x in c["table"]]
+
+
+def gen_cycle_cases(rng, n, algos, p_float=0.12):
+    """cases for the cost properties: more cycles, complete runs mostly.  A low-weight ORACLE-ONLY stream
+    (case["float"] = 1, mgm only, never printed for Coq) has non-integer costs."""
     cases = []
     for _ in range(n):
         algo = rng.choice(algos)
-        vars_, cons = gen_dcop(rng, nmax=5, p_cost=rng.choice([0.0, 0.3, 0.6]))
+        isf = "mgm" in algos and rng.random() < p_float
+        if isf:
+            algo = "mgm"
+        vars_, cons = gen_dcop(rng, nmax=5, p_cost=0.6 if isf else rng.choice([0.0, 0.3, 0.6]))
+        if isf:
+            floatify(rng, vars_, cons)
         k = rng.randint(2, 7)
         full = rng.random() < 0.85
         params = {}
@@ -557,12 +601,16 @@ def gen_cycle_cases(rng, n, algos):
         cases.append(dict(algo=algo, mode=rng.choice(["min", "max"]), stop_cycle=k, params=params, vars=vars_,
                           cons=cons, seed=rng.randrange(10 ** 9), policy=policy_for(rng, len(vars_)),
                           max_steps=4000 if full else rng.randint(5, 120), full=1 if full else 0))
+        if isf:
+            cases[-1]["float"] = 1
     return cases
 
 
 def cycle_histogram(cases, obs):
-    h = {"boundaries": 0, "moving_cycles": 0, "idle_cycles": 0, "with_var_costs": 0, "max_mode": 0, "nary": 0}
+    h = {"boundaries": 0, "moving_cycles": 0, "idle_cycles": 0, "with_var_costs": 0, "max_mode": 0, "nary": 0,
+         "float_costs_oracle_only": 0}
     for c, o in zip(cases, obs):
+        h["float_costs_oracle_only"] += 1 if c.get("float") else 0
         h[c["algo"]] = h.get(c["algo"], 0) + 1
         bs = boundaries(c, o) if "events" in o else []
         h["boundaries"] += len(bs)
